@@ -147,3 +147,22 @@ Section RdpFixed.
   Definition min_point_rdp (fuel : nat) (ts : list (T N)) (min_points : nat) : option (list nat * list row) :=
     min_point_go fuel min_points (sort_desc ts).
 End RdpFixed.
+
+(* ---- the ordering scores, derived from their stated definitions (py: rdp.py:201-275) ----
+   rdp.order_triangle: 0.5 * base * height, base = np.linalg.norm(pt[0] - pt[-1]) of the child segment (oracle `chord`:
+     BLAS/libm, not bit-reproducible), height = distance_points(child, ...).max() with the CONFIGURED distance (`dist`);
+   rdp.order_area: np.sum(distance_points(child, ...)) (NumPy pairwise sum, bit-exact in NpList.v);
+   rdp.order_segment: lf.linear_fit_residuals_points(child) (oracle `resid`). *)
+Inductive order := OTriangle | OArea | OSegment.
+Section Prio.
+  Context {N : Num}.
+  Variable ord : order.
+  Variable chord resid : nat -> nat -> T N.
+  Variable dist : nat -> nat -> list (T N).
+  Definition prio_derived (l r : nat) : T N :=
+    match ord with
+    | OTriangle => half *! chord l r *! np_max (dist l r)
+    | OArea => np_sum (dist l r)
+    | OSegment => resid l r
+    end.
+End Prio.
